@@ -131,6 +131,17 @@ D = {
  ('Wrapper.validatePresentationAudience','deref:*proof.Domain'):T('under the nil check'),
  ('Wrapper.validatePresentationAudience','range:audience'):T('bounded loop'),
 
+ ('DIDToURL','slice:id.ID[:subpathIdx]'):T('under subpathIdx != -1, subpathIdx = strings.Index(id.ID, ":") <= len (model: DidWeb.splitColon)'),
+ ('DIDToURL','slice:id.ID[subpathIdx:]'):T('under subpathIdx != -1, subpathIdx = strings.Index(id.ID, ":") <= len (model: DidWeb.splitColon)'),
+ ('DIDToURL','nilcheck:parsedIP != nil'):T('test of the result of net.ParseIP'),
+ ('percentDecodeString','for:i < len(s)'):T('i strictly increases (i++ and i += 2): model recursion on the remaining bytes (didweb_percent_decode_length)'),
+ ('percentDecodeString','lencheck:i + 2 < len(s)'):T('guard of the slice (Cfg.sliceGuard = some 2); weaker or absent: site percentDecodeString:s[i:i+3]'),
+ ('percentDecodeString','index:s[i]'):T('under the loop condition i < len(s)'),
+ ('percentDecodeString','slice:s[i:i + 3]'):S('percentDecodeString:s[i:i+3]'),
+ ('percentDecodeChar','lencheck:len(encoded) != 3'):T('guard of the three index expressions (Cfg.charLenGuard)'),
+ ('percentDecodeChar','index:encoded[0]'):S('percentDecodeChar:encoded[0]'),
+ ('percentDecodeChar','index:encoded[1]'):S('percentDecodeChar:encoded[1]'),
+ ('percentDecodeChar','index:encoded[2]'):S('percentDecodeChar:encoded[2]'),
 }
 # functions that are NOT (or only partly) inside a model: every partial operation is listed with the harness entry point that samples it
 SAMPLED = {}
@@ -175,6 +186,9 @@ for key in order:
         d = D.get((fn, op))
         if fn == 'Resolver.Resolve' and not key.startswith('vdr/didkey/'):
             d = None
+        if key == 'vdr/didweb/web.go:Resolver.Resolve':
+            d = {'lencheck:len(baseURL.Path) == 0': T('test (model: DidWeb.requestPath)'),
+                 'guardcall:resolver.RejectNullKeyEntries': T('guard of document.UnmarshalJSON (Cfg.nullGuard); without it: site Resolve>did.Document.UnmarshalJSON (go-did dereferences null key entries)')}.get(op)
         if d is None and key.split(':')[0] + ':' + fn in SAMPLED:
             d = ('sampled', SAMPLED[key.split(':')[0] + ':' + fn])
         if d is None:
